@@ -3,6 +3,7 @@
 package worlds
 
 import (
+	"reflect"
 	"context"
 	"unsafe"
 	"crypto/ed25519"
@@ -21,6 +22,7 @@ import (
 
 	"github.com/mholt/caddy-l4/layer4"
 	"github.com/mholt/caddy-l4/modules/l4proxy"
+	"github.com/mholt/caddy-l4/modules/l4proxyprotocol"
 	"github.com/mholt/caddy-l4/modules/l4tee"
 	"github.com/mholt/caddy-l4/modules/l4throttle"
 	socks5 "github.com/things-go/go-socks5"
@@ -107,6 +109,10 @@ func (e *Env) install() {
 	layer4.VerifSyncHook, l4proxy.VerifSyncHook, l4tee.VerifSyncHook, l4throttle.VerifSyncHook, socks5.VerifSyncHook = syncp, syncp, syncp, syncp, syncp
 	layer4.VerifGoHook, layer4.VerifYieldHook, layer4.VerifPickHook = goHook, yield, pick
 	layer4.VerifPoolGetHook, layer4.VerifPoolPutHook = e.Pool.Get, e.Pool.Put
+	l4proxy.VerifPoolGetHook, l4proxy.VerifPoolPutHook = e.Pool.Get, e.Pool.Put
+	l4tee.VerifPoolGetHook, l4tee.VerifPoolPutHook = e.Pool.Get, e.Pool.Put
+	l4throttle.VerifPoolGetHook, l4throttle.VerifPoolPutHook = e.Pool.Get, e.Pool.Put
+	l4proxyprotocol.VerifPoolGetHook, l4proxyprotocol.VerifPoolPutHook = e.Pool.Get, e.Pool.Put
 	l4proxy.VerifGoHook, l4proxy.VerifYieldHook, l4proxy.VerifPickHook = goHook, yield, pick
 	l4proxy.VerifDialHook, l4proxy.VerifTLSDialHook = dial, tlsDial
 	l4tee.VerifGoHook, l4tee.VerifYieldHook, l4tee.VerifPickHook = goHook, yield, pick
@@ -140,6 +146,10 @@ func (e *Env) uninstall() {
 	layer4.VerifSyncHook, l4proxy.VerifSyncHook, l4tee.VerifSyncHook, l4throttle.VerifSyncHook, socks5.VerifSyncHook = nil, nil, nil, nil, nil
 	layer4.VerifGoHook, layer4.VerifYieldHook, layer4.VerifPickHook = nil, nil, nil
 	layer4.VerifPoolGetHook, layer4.VerifPoolPutHook = nil, nil
+	l4proxy.VerifPoolGetHook, l4proxy.VerifPoolPutHook = nil, nil
+	l4tee.VerifPoolGetHook, l4tee.VerifPoolPutHook = nil, nil
+	l4throttle.VerifPoolGetHook, l4throttle.VerifPoolPutHook = nil, nil
+	l4proxyprotocol.VerifPoolGetHook, l4proxyprotocol.VerifPoolPutHook = nil, nil
 	l4proxy.VerifGoHook, l4proxy.VerifYieldHook, l4proxy.VerifPickHook = nil, nil, nil
 	l4proxy.VerifDialHook, l4proxy.VerifTLSDialHook = nil, nil
 	l4tee.VerifGoHook, l4tee.VerifYieldHook, l4tee.VerifPickHook = nil, nil, nil
@@ -152,11 +162,12 @@ func (e *Env) uninstall() {
 
 const Poison = 0xDB
 
-// PoisonPool is the deterministic replacement of the two sync.Pools: LIFO
-// reuse, and the full capacity of a buffer is overwritten when it is Put.
+// PoisonPool is the deterministic replacement of every sync.Pool in the instrumented
+// packages: LIFO reuse (the most adversarial legal behaviour: whatever was put last is
+// handed out next), and the full capacity of a byte buffer is overwritten when it is Put.
 type PoisonPool struct {
 	s      *simkit.Sim
-	stacks map[any][][]byte
+	stacks map[any][]any
 	Gets   int
 	Puts   int
 	Reuses int
@@ -164,7 +175,22 @@ type PoisonPool struct {
 }
 
 func NewPoisonPool(s *simkit.Sim) *PoisonPool {
-	return &PoisonPool{s: s, stacks: map[any][][]byte{}}
+	return &PoisonPool{s: s, stacks: map[any][]any{}}
+}
+
+// racePtr: the address standing for a pooled item in the race detector's happens-before
+// graph (first byte of a buffer, or the pointee of a pointer).
+func racePtr(x any) unsafe.Pointer {
+	if b, ok := x.([]byte); ok {
+		if cap(b) > 0 {
+			return unsafe.Pointer(&b[:1][0])
+		}
+		return nil
+	}
+	if v := reflect.ValueOf(x); v.Kind() == reflect.Pointer && !v.IsNil() {
+		return v.UnsafePointer()
+	}
+	return nil
 }
 
 //go:norace
@@ -173,39 +199,41 @@ func (p *PoisonPool) Get(key any, newf func() any) any {
 	p.Gets++
 	st := p.stacks[key]
 	if n := len(st); n > 0 {
-		b := st[n-1]
+		x := st[n-1]
 		p.stacks[key] = st[:n-1]
 		p.Reuses++
 		p.s.Unlock()
 		// like sync.Pool: a Get happens after the Put that supplied the item
-		if cap(b) > 0 {
-			simkit.RaceAcquire(unsafe.Pointer(&b[:1][0]))
+		if ptr := racePtr(x); ptr != nil {
+			simkit.RaceAcquire(ptr)
 		}
-		return b
+		return x
 	}
 	p.s.Unlock()
+	if newf == nil {
+		return nil
+	}
 	return newf()
 }
 
 //go:norace
 func (p *PoisonPool) Put(key any, x any) {
-	b, ok := x.([]byte)
-	if !ok {
+	if x == nil {
 		return
 	}
-	if cap(b) > 0 {
-		simkit.RaceRelease(unsafe.Pointer(&b[:1][0]))
+	if ptr := racePtr(x); ptr != nil {
+		simkit.RaceRelease(ptr)
 	}
 	p.s.Lock()
 	defer p.s.Unlock()
 	p.Puts++
-	if !p.NoPoison {
+	if b, ok := x.([]byte); ok && !p.NoPoison {
 		full := b[:cap(b)]
 		for i := range full {
 			full[i] = Poison
 		}
 	}
-	p.stacks[key] = append(p.stacks[key], b)
+	p.stacks[key] = append(p.stacks[key], x)
 }
 
 // ---- TLS material -----------------------------------------------------------------
